@@ -117,6 +117,24 @@ Proof.
 Qed.
 Print Assumptions c14_error_answer_lowers_score.
 
+(* DeadlineExceeded with EVERY status message ("context deadline exceeded" from status.FromContextError,
+   "deadline", "", ...), every flag combination: unacceptable -- the classification depends on the code only, so
+   a hung backend (every call ends with the caller's deadline firing) moves toward 0 at every completion and, by
+   c14_error_answer_strictly_lowers / c14_all_fail_unhealthy_within_500, is unhealthy after a bounded number. *)
+Theorem c14_deadline_always_unacceptable : forall W wzero fexpr s k info w s' tk c c',
+  d_err info = Some 4 (* codes.DeadlineExceeded *) ->
+  done_info W wzero fexpr s k info w = Ok s' -> nth_error (tokens s) k = Some tk ->
+  nth_error (conns s) (t_conn tk) = Some c -> nth_error (conns s') (t_conn tk) = Some c' ->
+  0 <= success c <= 1000 ->
+  0 <= success c' <= success c /\
+  forall info2, d_err info2 = Some 4 -> done_info W wzero fexpr s k info2 w = Ok s'.
+Proof.
+  intros W wzero fexpr s k info w s' tk c c' He Hd Ht Hc Hc' Hr. split.
+  - apply (c14_error_answer_lowers_score W wzero fexpr s k info w s' tk c c' 4 He Hd Ht Hc Hc' Hr). reflexivity.
+  - intros info2 H2. rewrite <- Hd. apply c14_done_ignores_transport_flags. congruence.
+Qed.
+Print Assumptions c14_deadline_always_unacceptable.
+
 (* ... and, with a weight < 1, lowers a positive score by at least one point whatever the flags say: the step
    behind the bounded-unhealthy theorem (c14_all_fail_unhealthy_within_500 quantifies over Done ops, i.e. over
    every DoneInfo with that Err). *)
